@@ -94,7 +94,8 @@ impl Baton {
 
 /// Called by SimReader::read, SimWriter::write, Probe callbacks and between calls of a history.
 pub fn yield_point() {
-    let hook = HOOK.with(|h| h.borrow().clone());
+    // `try_with`: a probe may make a call from a thread-local destructor, after HOOK is gone
+    let hook = HOOK.try_with(|h| h.borrow().clone()).ok().flatten();
     if let Some((b, me)) = hook {
         b.yield_now(me);
     }
